@@ -71,11 +71,13 @@ struct Space
     std::vector<std::vector<double>> M;   // metric matrix
     std::string kern;                    // lin | matrix
     std::vector<std::vector<double>> KM;  // kernel matrix
-    mutable long ndist = 0, nkern = 0;
+    mutable long ndist = 0, nkern = 0, nself = 0; // nself: evaluations d(x, x) (every search makes N of them per round)
 
     double dist(int a, int b) const
     {
         ndist++;
+        if (a == b)
+            nself++;
         if (metric == "matrix")
             return M[a][b];
         double acc = 0;
